@@ -88,6 +88,9 @@ def gen_pair(rng, fd):
     universe = rng.sample(T.WORDS, k)
     weights = [rng.choice([1, 1, 2, 4]) for _ in universe]
     l = T.gen_string(rng, kind, universe, weights, maxlen=8)
+    if kind.startswith('qgram') and rng.random() < 0.25:
+        # strings over a two-letter alphabet: the same q-gram occurs several times in a prefix (bags!)
+        l = ''.join(rng.choice('ab') for _ in range(rng.randint(2, 7))) if rng.random() < 0.7 else rng.choice(['aaa', 'www', '000', 'abab', 'aaaa'])
     if rng.random() < 0.6:
         # derive r from l
         if kind.startswith('qgram'):
@@ -110,6 +113,18 @@ def gen_pair(rng, fd):
             r = sep.join(keep + extra)
     else:
         r = T.gen_string(rng, kind, universe, weights, maxlen=8)
+    if kind.startswith('qgram') and rng.random() < 0.12:
+        # a run of one q-gram wrapped in one edit on each side (and the alternating variant): the repeated
+        # q-gram fills the shorter string's prefix and occurs again further right in the longer one
+        c_, d_ = rng.sample('abwz01', 2)
+        if rng.random() < 0.6:
+            l = c_ * rng.randint(3, 4)
+            r = d_ + l + d_
+        else:
+            l = (c_ + d_) * 2
+            r = d_ + l + c_
+        if rng.random() < 0.3:
+            l, r = r, l
     if rng.random() < 0.08:
         l = None
     if rng.random() < 0.08:
